@@ -119,13 +119,8 @@ def work_of(depth, outvals, maxcalls, two_process=True, unsuccessful='short'):
 # None as a SUPPLIED value (VNONE = Ports!NoneV; the key is there and holds None, which is not "the key is left out"): given for a
 # leaf port, for an undeclared key (directly or inside a mapping) and as a plain / callable default (Ports!DefaultsFor).
 #
-# NONE_FOR_NAMESPACE: None given for a declared NAMESPACE ({'ns': None}).  Switched OFF: it exposes a behaviour of the unmodified
-# library that the declarative statements of C11 do not allow (TLC: Conforms violated with Dev = {}; the real classes agree with the
-# operational model).  PortNamespace.validate reads None as {} and PortNamespace.pre_process passes a non-mapping through, so for a
-# namespace `a` that accepts {} the constructor SUCCEEDS on {'a': None} and `inputs.a` is None: not a (read-only) mapping at the
-# declared namespace level `a` (FrozenOK) and without the defaults declared below `a` (ParsedOK), which {} and a left-out key both get.
-# Switch it on to see the reports; it stays off until the library is repaired or the behaviour is listed as a known finding with a
-# deviation clause in spec/Ports.tla.
+# NONE_FOR_NAMESPACE: None given for a declared NAMESPACE ({'ns': None}) stands for "not specified" (repaired in /repo: pre_process
+# used to leave the None in place; found by this extension of the universe).
 NONE_FOR_NAMESPACE = True
 _NSNONE = ['VNONE'] if NONE_FOR_NAMESPACE else []
 
